@@ -101,7 +101,54 @@ func refClean(p string) string {
 
 var tokens = []string{"/", "/", "/", ".", "..", "a", "b", "c.d", "%2e", "%2E", "%2f", "%2F", "%25", "%zz", "%", "%2", "%5c", "\\", " ", "+", "%00x", "...", ".a", "a.", "%252e", "\xff", "~", ";", ":", "@", "=", "é"}
 
+// dot-segment spellings and ordinary segments for the segment-structured generator and the
+// bounded enumeration: the token soup of genPath rarely produces chains such as "/a/b/../.."
+var segTokens = []string{"a", "b.", "..", "..", ".", "%2e%2e", "%2E.", ".%2e", "%2e", "", "c%2fd", "..."}
+
+func genSegPath(r interface{ Intn(int) int }) string {
+	n := 1 + r.Intn(8)
+	var b strings.Builder
+	for i := 0; i < n; i++ {
+		if i > 0 || r.Intn(8) != 0 {
+			b.WriteByte('/')
+		}
+		b.WriteString(segTokens[r.Intn(len(segTokens))])
+	}
+	if r.Intn(3) == 0 {
+		b.WriteByte('/')
+	}
+	return b.String()
+}
+
+var enumSegs = []string{"a", "b.", ".", "..", "%2e%2E", ""}
+
+// enumPath returns the k-th path of the bounded enumeration: every sequence of 1..6 segments over
+// enumSegs, each with and without a trailing slash (2*(6+36+…+6^6) = 111972 paths).
+func enumPath(k int) (string, bool) {
+	trail := k&1 == 1
+	k >>= 1
+	for l, cnt := 1, len(enumSegs); l <= 6; l, cnt = l+1, cnt*len(enumSegs) {
+		if k < cnt {
+			var b strings.Builder
+			for j := 0; j < l; j++ {
+				b.WriteByte('/')
+				b.WriteString(enumSegs[k%len(enumSegs)])
+				k /= len(enumSegs)
+			}
+			if trail {
+				b.WriteByte('/')
+			}
+			return b.String(), true
+		}
+		k -= cnt
+	}
+	return "", false
+}
+
 func genPath(r interface{ Intn(int) int }) string {
+	if r.Intn(3) == 0 {
+		return genSegPath(r)
+	}
 	n := 1 + r.Intn(10)
 	var b strings.Builder
 	if r.Intn(8) != 0 {
@@ -170,7 +217,7 @@ func structural(got string) string {
 func TestC26(t *testing.T) {
 	r := mon.Start(t, "C26")
 	defer r.Finish()
-	r.Rule("case = request path of 1-10 tokens over {/ . .. %2e %2f %25 %zz \\ bytes…}; executed through URI.Parse(host,path+?q#h), URI.SetPath, RequestCtx.Path() and (one case in three) a relative URI.Update/UpdateBytes on the parsed base, whose reference is clean(dir(reference path)+decode(rel)); compared with an independent remove_dot_segments reference; distinct = set of feature vectors (dot, dotdot, encoded dot/slash, double slash, …, segment count); non-trivial = path contains a dot segment, an escape or a double slash")
+	r.Rule("case = request path of 1-10 tokens over {/ . .. %2e %2f %25 %zz \\ bytes…} or (one in three) 1-8 whole segments over dot-segment spellings, plus a bounded enumeration of all 1-6 segment sequences over {a b. . .. %2e%2E empty} with and without trailing slash; executed through URI.Parse(host,path+?q#h), URI.SetPath, RequestCtx.Path() and (one case in three) a relative URI.Update/UpdateBytes on the parsed base, whose reference is clean(dir(reference path)+decode(rel)); compared with an independent remove_dot_segments reference; distinct = set of feature vectors (dot, dotdot, encoded dot/slash, double slash, …, segment count); non-trivial = path contains a dot segment, an escape or a double slash")
 	r.Assume("reference normaliser written from RFC 3986 5.2.4 is itself correct (cross-checked against path.Clean on the cases where both are defined)")
 	n := r.N(300_000, 20_000_000)
 	const block = 5000
@@ -273,6 +320,53 @@ func TestC26(t *testing.T) {
 			}
 		}
 	})
+	// bounded enumeration of dot-segment chains (deterministic, the same in both tiers)
+	const enumBlock = 4000
+	enumTotal := 0
+	for {
+		if _, ok := enumPath(enumTotal); !ok {
+			break
+		}
+		enumTotal++
+	}
+	mon.Parallel((enumTotal+enumBlock-1)/enumBlock, 0, func(bi int) {
+		var u fasthttp.URI
+		for k := bi * enumBlock; k < (bi+1)*enumBlock && k < enumTotal; k++ {
+			i := n + k
+			if !r.Want(i) {
+				continue
+			}
+			p, _ := enumPath(k)
+			want := refNormalize(p)
+			for api := 0; api < 2; api++ {
+				u.Reset()
+				name := "URI.SetPath"
+				if api == 0 {
+					name = "URI.Parse"
+					if err := u.Parse([]byte("example.com"), []byte(p+"?x=/..")); err != nil {
+						r.Event("enum_parse_rejected", 1)
+						continue
+					}
+				} else {
+					u.SetPath(p)
+				}
+				gp := string(u.Path())
+				r.Event("enum_paths_compared", 1)
+				if gp != want {
+					r.Violation(i, "enum-"+classify(p, gp, want), fmt.Sprintf("%s(%q) = %q, reference %q", name, p, gp, want),
+						map[string]any{"input": p, "api": name, "got": gp, "want": want})
+				} else if s := structural(gp); s != "" {
+					r.Violation(i, "structural", fmt.Sprintf("%s(%q) = %q: %s", name, p, gp, s), map[string]any{"input": p, "got": gp})
+				}
+			}
+			if strings.HasSuffix(p, "/..") || strings.HasSuffix(p, "/%2e%2E") {
+				r.Event("enum_paths_ending_in_dotdot", 1)
+			}
+			r.Case("enum:"+classOf(p), true)
+		}
+	})
+	r.Require("enum_paths_compared", enumTotal)
+	r.Require("enum_paths_ending_in_dotdot", enumTotal/12)
 	r.Require("paths_compared", n)
 	r.Require("relative_updates_compared", n/8)
 	r.Require("relative_updates_on_dir_with_literal_pct_or_delims", n/2000)
